@@ -321,7 +321,7 @@ def replay_edges(edge_file: str, mode: str, out: hlib.RecWriter, stats: dict) ->
     edges = [e for e in json.load(open(edge_file)) if e.get('tag') == 'EDGE']
     key = lambda s: json.dumps(s, sort_keys=True)
     history = any(e['a']['op'] == 'resave' for e in edges)
-    build_ops = ('create', 'resource', 'sheet') + (('save', 'read', 'load', 'look', 'compute', 'clear') if history else ())
+    build_ops = ('create', 'resource', 'sheet') + (('save', 'read', 'load', 'look', 'poke', 'compute', 'clear') if history else ())
     build_edges = [e for e in edges if e['a']['op'] in build_ops]
     paths = hlib.bfs_paths(build_edges, key)
     seed = hlib.seed()
@@ -332,7 +332,13 @@ def replay_edges(edge_file: str, mode: str, out: hlib.RecWriter, stats: dict) ->
         if history:
             if op == 'resave':
                 path = paths[key(e['s'])]
-                ops = [p for p in path if p['op'] in ('load', 'look', 'compute', 'clear')]
+                ops = []
+                for p in path:
+                    if p['op'] == 'poke':
+                        prng = random.Random(case_seed * 31 + len(ops))
+                        ops.append({'op': 'poke', 'm': p['m'], 'px': [prng.randrange(256) for _ in range(4)]})
+                    elif p['op'] in ('load', 'look', 'compute', 'clear'):
+                        ops.append(p)
                 rec = hist_record(hist_cfg(path[0]), ops, case_seed, 'edge')
                 out.write(rec)
                 stats['resaves'] = stats.get('resaves', 0) + 1
@@ -491,27 +497,31 @@ def hist_record(c: dict, ops: list, seed: int, src: str) -> dict:
     # abstract parameter for known findings: an erased level whose nearest kept ancestor is a level
     # >= 1 that is still lazy (not loaded) when the texture is saved
     loaded = [False] * c['mip']
-    kept = [True] * c['mip']
+    state = ['file'] * c['mip']            # file: as read; erased; gen: regenerated
+    lazy_parent = False
+
+    def regen() -> None:
+        nonlocal lazy_parent
+        for m in range(1, c['mip']):
+            if state[m] == 'erased':
+                if state[m - 1] == 'file' and m - 1 >= 1 and not loaded[m - 1]:
+                    lazy_parent = True
+                state[m], loaded[m] = 'gen', True
     for o in ops:
         if o['op'] == 'load':
             for m in range(c['mip']):
                 if (o['sel'] == 'top' and m == 0) or (o['sel'] == 'small' and m >= 1) or o['sel'] == 'all':
                     loaded[m] = True
-        elif o['op'] == 'look':
+        elif o['op'] in ('look', 'poke'):
             if c['frames'] * slices == 1:      # looking loads one frame only, not the whole level
                 loaded[o['m']] = True
         elif o['op'] == 'compute':
-            pass        # regenerates erased levels now; their lazy parents are in the same state as at save
+            regen()
         elif o['op'] == 'clear':
             for m in range(c['mip']):
                 if m > o['after']:
-                    kept[m], loaded[m] = False, False
-    lazy_parent = False
-    for m in range(1, c['mip']):
-        if not kept[m]:
-            p = max(q for q in range(m) if kept[q])
-            if p >= 1 and not loaded[p]:
-                lazy_parent = True
+                    state[m], loaded[m] = 'erased', False
+    regen()
     rec = {'k': 'hist', 'c': c, 'ops': ops, 'stored': stored, 'exc': '', 'hdr': {'err': '-'}, 'keys': [], 'pix': [], 'seed': seed,
            'sig': {'kind': 'hist', 'action': 'resave', 'fmt': c['fmt'], 'src': src, 'minor': c['minor'], 'cube': c['cube'],
                    'ops': '+'.join(o['op'] for o in ops) or 'none', 'lazy_parent': lazy_parent}}
@@ -525,6 +535,8 @@ def hist_record(c: dict, ops: list, seed: int, src: str) -> dict:
                         fr.load()
             elif o['op'] == 'look':
                 tuple(frame_of(vtf, 0, sl_list[0], o['m'])[0, 0])
+            elif o['op'] == 'poke':
+                frame_of(vtf, 0, sl_list[0], o['m'])[0, 0] = tuple(o['px'])
             elif o['op'] == 'compute':
                 vtf.compute_mipmaps()
             elif o['op'] == 'clear':
@@ -563,17 +575,20 @@ def random_hist(out: hlib.RecWriter, rng: random.Random, n_cases: int, stats: di
         if rng.random() < 0.3:
             c['mip'] = rng.randint(1, c['mip'])          # files need not hold every level
         ops = []
-        cleared = c['mip']                               # levels >= cleared are erased
+        cleared = c['mip']                               # levels >= cleared are erased (until a compute)
         for _ in range(rng.choice([0, 0, 1, 2, 3, 4])):
-            kind = rng.choice(['load', 'look', 'compute', 'clear'])
+            kind = rng.choice(['load', 'look', 'poke', 'compute', 'clear'])
             if kind == 'clear':
                 after = rng.randint(0, max(0, c['mip'] - 1))
                 ops.append({'op': 'clear', 'after': after})
                 cleared = min(cleared, after + 1)
             elif kind == 'compute':
                 ops.append({'op': 'compute'})
+                cleared = c['mip']
             elif kind == 'look':
                 ops.append({'op': 'look', 'm': rng.randrange(cleared)})
+            elif kind == 'poke':
+                ops.append({'op': 'poke', 'm': rng.randrange(cleared), 'px': [rng.randrange(256) for _ in range(4)]})
             else:
                 sel = rng.choice(['top', 'small', 'all'])
                 if sel != 'top' and cleared < c['mip']:
